@@ -19,6 +19,10 @@ From Vx Require Import base.Prelude base.ListX.
 
 Record cell := mkCell { c_runes : list Z; c_width : Z; c_style : Z }.
 
+(* short forms used by the case files *)
+Definition c1 (r w : Z) : cell := mkCell [r] w 0.
+Definition cs (r w s : Z) : cell := mkCell [r] w s.
+
 Definition is_nil {A} (l : list A) : bool := match l with [] => true | _ => false end.
 
 (* uint16(char.Width) *)
